@@ -291,9 +291,10 @@ def retrieve_initial_concentration(
         # unless mixed with general decays
         return
 
-    dataset["initial_concentration"] = (
-        (species_dimension,),
-        dataset_model.initial_concentration.parameters,
+    dataset["initial_concentration"] = xr.DataArray(
+        np.asarray(dataset_model.initial_concentration.parameters),
+        coords={species_dimension: dataset_model.initial_concentration.compartments},
+        dims=(species_dimension,),
     )
 
 
